@@ -79,10 +79,19 @@ func c04Run(c c04Case) (viol bool, desc string, res eng.Result, expectAccept boo
 	return true, fmt.Sprintf("%s wrapper built from %s does not accept a valid proof of %s with the template's own key: %s", c.Wrapper, tin.Name(), pin.Name(), fmtRes(res)), res, expectAccept
 }
 
+func indexOf(xs []int, x int) int {
+	for i, y := range xs {
+		if y == x {
+			return i
+		}
+	}
+	return 0
+}
+
 func TestC04(t *testing.T) {
 	r := rec.New("C04")
 	defer r.Flush()
-	r.Rule("wrapper templates built through the repository's own compile-path constructors from corpus instances (CircuitFixed: A1,A2; VerifierCircuit: all five; k in {1,2,3} query rounds to keep FRI cheap) x proving-time key K': unchanged (control), each of the 17 key elements +1 / random / zero -- enumerated so that every cap entry not selected by any query index of the presented proof is covered --, the other inner circuit's complete key, fully random keys; also a different valid proof of the same inner circuit with the right key (control).  Oracle: ACCEPT <=> K' == key of the template.  Non-trivial = K' != K_T; the stratum 'unselected cap entry' is reported separately.  Distinct = (wrapper, template, proof, K').")
+	r.Rule("wrapper templates built through the repository's own compile-path constructors from corpus instances (CircuitFixed: A1,A2; VerifierCircuit: all five; k in {1,2,3} query rounds to keep FRI cheap) x proving-time key K': unchanged (control), each of the 17 key elements +1 / random / zero -- enumerated so that every cap entry not selected by any query index of the presented proof is covered --, the other inner circuit's complete key, fully random keys, and several entries altered together (cancelling deltas +d/-d over two or three entries, two entries swapped, all unselected entries at once); also a different valid proof of the same inner circuit with the right key (control).  Oracle: ACCEPT <=> K' == key of the template.  Non-trivial = K' != K_T; the stratum 'unselected cap entry' is reported separately.  Distinct = (wrapper, template, proof, K').")
 	r.Assume("reference verifier computes which cap slots the query indices select", "engine semantics (C06)")
 
 	var rp c04Case
@@ -161,7 +170,7 @@ func TestC04(t *testing.T) {
 		}
 	}
 	// 2. generated: element x {+1, random, zero}, random keys
-	rapidCheck(t, "keys", tierN(120, 6000), func(rt *rapid.T) {
+	rapidCheck(t, "keys", tierN(260, 9000), func(rt *rapid.T) {
 		w := rapid.SampledFrom(wts).Draw(rt, "wrapper")
 		k := rapid.SampledFrom(ks).Draw(rt, "k")
 		in := wv.Load(w.base, k)
@@ -169,7 +178,57 @@ func TestC04(t *testing.T) {
 		tk := keyOf(in)
 		key := append([]*big.Int{}, tk...)
 		var what, class string
-		if rapid.IntRange(0, 9).Draw(rt, "allrandom") == 0 {
+		if rapid.IntRange(0, 2).Draw(rt, "multi") == 0 {
+			// several entries altered together: cancelling deltas (+d,-d,..), swapped entries, or all
+			// unselected entries at once -- a key check that aggregates entries (sum, product, xor) or
+			// skips a range must not be satisfied by compensating changes
+			var unsel, all []int
+			for i := 0; i < 16; i++ {
+				all = append(all, i)
+				if sel[i] == 0 {
+					unsel = append(unsel, i)
+				}
+			}
+			pool := all
+			if len(unsel) >= 2 && rapid.IntRange(0, 3).Draw(rt, "unselected_only") != 0 {
+				pool = unsel
+			}
+			how := rapid.SampledFrom([]string{"cancelling-deltas", "cancelling-deltas", "swap", "all-unselected+1"}).Draw(rt, "multi_kind")
+			a := pool[rapid.IntRange(0, len(pool)-1).Draw(rt, "a")]
+			b := pool[rapid.IntRange(0, len(pool)-1).Draw(rt, "b")]
+			if a == b {
+				b = pool[(indexOf(pool, a)+1)%len(pool)]
+			}
+			switch how {
+			case "cancelling-deltas":
+				d := genBigBelow(bigR).Draw(rt, "delta")
+				if d.Sign() == 0 {
+					d.SetInt64(1)
+				}
+				key[a] = new(big.Int).Mod(new(big.Int).Add(tk[a], d), bigR)
+				key[b] = new(big.Int).Mod(new(big.Int).Sub(tk[b], d), bigR)
+				if rapid.Bool().Draw(rt, "three") && len(pool) > 2 {
+					// split the compensation over two entries
+					c := pool[(indexOf(pool, b)+1)%len(pool)]
+					if c != a {
+						e := genBigBelow(bigR).Draw(rt, "delta2")
+						key[b] = new(big.Int).Mod(new(big.Int).Add(key[b], e), bigR)
+						key[c] = new(big.Int).Mod(new(big.Int).Sub(tk[c], e), bigR)
+					}
+				}
+			case "swap":
+				key[a], key[b] = tk[b], tk[a]
+			default:
+				for _, i := range unsel {
+					key[i] = new(big.Int).Mod(new(big.Int).Add(tk[i], big.NewInt(1)), bigR)
+				}
+			}
+			what = fmt.Sprintf("multi:%s entries %d,%d (selected by %d,%d queries)", how, a, b, sel[a], sel[b])
+			class = "multi-entry/" + how
+			if a != b && sel[a] == 0 && sel[b] == 0 {
+				class += "/unselected"
+			}
+		} else if rapid.IntRange(0, 9).Draw(rt, "allrandom") == 0 {
 			for i := range key {
 				key[i] = genBigBelow(bigR).Draw(rt, "v")
 			}
